@@ -112,10 +112,22 @@ THEOREMS_SIMTRANSFER = ["Slock.SimP.key_view", "Slock.SimP.transfer_key", "Slock
                         "Slock.SimP.C17_census_transfers"]
 
 
+# the simulation with REPLIES: one step, the whole run, C03 + the reply-history theorem of C05 at record level (Slock/Properties/EngineSimReplies.lean)
+THEOREMS_SIMREPLIES_C03 = ["Slock.SimP.sim_step_replies", "Slock.SimP.sim_run_replies_from", "Slock.SimP.sim_run_replies", "Slock.SimP.sim_run_replies_syn",
+                           "Slock.SimP.runOut_trace1", "Slock.SimP.runOut2_eq", "Slock.SimP.queued_equiv", "Slock.SimP.queued_abs", "Slock.SimP.replies_view",
+                           "Slock.SimP.C03_conservation_transfers", "Slock.SimP.C03_conservation_transfers_syn",
+                           "Slock.SimP.C03_at_most_one_transfers", "Slock.SimP.C03_at_most_one_transfers_syn",
+                           "Slock.SimP.C03_exactly_one_transfers", "Slock.SimP.C03_exactly_one_transfers_syn",
+                           "Slock.SimP.C03_routing_transfers", "Slock.SimP.C03_routing_transfers_syn"]
+THEOREMS_SIMREPLIES = THEOREMS_SIMREPLIES_C03 + ["Slock.SimP.trace2_append", "Slock.SimP.sum_eq_of_getKey",
+                                                 "Slock.SimP.C05_answered_by_deadline_transfers", "Slock.SimP.C05_answered_by_deadline_transfers_syn"]
+
+
 def audit_sim(ctx):
     """The stage-2 -> stage-1 simulation theorems proved so far (to be called from c01.py … c06.py / c17.py)."""
     ctx.lake_build(["Slock.Properties.EngineSim", "Slock.Properties.EngineSimTick", "Slock.Properties.EngineSimRun", "Slock.Properties.EngineSimTransfer",
-                    "Slock.Properties.EngineSimFrameFree"])
+                    "Slock.Properties.EngineSimFrameFree", "Slock.Properties.EngineSimReplies"])
+    ctx.audit("Slock.Properties.EngineSimReplies", THEOREMS_SIMREPLIES)
     ctx.audit("Slock.Properties.EngineSimTransfer", THEOREMS_SIMTRANSFER)
     ctx.audit("Slock.Properties.EngineSim", THEOREMS_SIM)
     ctx.audit("Slock.Properties.EngineSimTick", THEOREMS_SIMTICK)
